@@ -2574,6 +2574,20 @@ func (db *DB) invalidateJournal(mode JournalMode) error {
 //
 // Returns the path of the new LTX file on success.
 func (db *DB) WriteLTXFileAt(ctx context.Context, r io.Reader) (string, error) {
+	return db.writeLTXFileAt(ctx, r, false)
+}
+
+// WriteForwardedLTXFileAt is WriteLTXFileAt for a file that comes from a
+// halt-lock holder rather than from the primary. Applying a file is fatal
+// once the database is being written so what the file claims about the
+// resulting database is checked against the current pages before the file is
+// published: a sender must not be able to stop the primary with a file that
+// is well-formed but wrong.
+func (db *DB) WriteForwardedLTXFileAt(ctx context.Context, r io.Reader) (string, error) {
+	return db.writeLTXFileAt(ctx, r, true)
+}
+
+func (db *DB) writeLTXFileAt(ctx context.Context, r io.Reader, verifyPostApplyChecksum bool) (string, error) {
 	// Read & parse initial header.
 	buf := make([]byte, ltx.HeaderSize)
 	var hdr ltx.Header
@@ -2619,6 +2633,14 @@ func (db *DB) WriteLTXFileAt(ctx context.Context, r io.Reader) (string, error) {
 		return "", fmt.Errorf("ltx validation error: %w", err)
 	}
 
+	if verifyPostApplyChecksum {
+		if chksum, ok, err := db.ltxPostApplyChecksum(f, prevPos); err != nil {
+			return "", fmt.Errorf("ltx validation error: %w", err)
+		} else if got := dec.Trailer().PostApplyChecksum; ok && got != chksum {
+			return "", fmt.Errorf("post-apply checksum mismatch: %s, expecting %s", got, chksum)
+		}
+	}
+
 	// If this is a snapshot, remove all other files before rename.
 	if hdr.IsSnapshot() {
 		dir, file := filepath.Split(tmpPath)
@@ -2635,6 +2657,65 @@ func (db *DB) WriteLTXFileAt(ctx context.Context, r io.Reader) (string, error) {
 		return "", fmt.Errorf("sync ltx dir: %w", err)
 	}
 	return path, nil
+}
+
+// ltxPostApplyChecksum returns the checksum the database will have once the
+// LTX file f has been applied at prevPos, computed from the file's pages and
+// the checksums of the pages they replace. Returns false if the checksum of a
+// replaced page is not known.
+func (db *DB) ltxPostApplyChecksum(f *os.File, prevPos ltx.Pos) (ltx.Checksum, bool, error) {
+	if _, err := f.Seek(0, io.SeekStart); err != nil {
+		return 0, false, err
+	}
+	dec := ltx.NewDecoder(f)
+	if err := dec.DecodeHeader(); err != nil {
+		return 0, false, err
+	}
+	hdr := dec.Header()
+
+	// A snapshot replaces every page.
+	chksum, prevPageN := prevPos.PostApplyChecksum, db.PageN()
+	if hdr.IsSnapshot() {
+		chksum, prevPageN = 0, 0
+	}
+
+	db.chksums.mu.Lock()
+	defer db.chksums.mu.Unlock()
+
+	lockPgno := ltx.LockPgno(hdr.PageSize)
+	buf := make([]byte, hdr.PageSize)
+	for {
+		var phdr ltx.PageHeader
+		if err := dec.DecodePage(&phdr, buf); err == io.EOF {
+			break
+		} else if err != nil {
+			return 0, false, err
+		}
+		if phdr.Pgno == lockPgno {
+			continue
+		}
+		if phdr.Pgno <= prevPageN {
+			prev, ok := db.pageChecksum(phdr.Pgno, prevPageN, nil)
+			if !ok {
+				return 0, false, nil
+			}
+			chksum ^= prev
+		}
+		chksum ^= ltx.ChecksumPage(phdr.Pgno, buf)
+	}
+
+	// Pages beyond the new size are removed.
+	for pgno := hdr.Commit + 1; pgno <= prevPageN; pgno++ {
+		if pgno == lockPgno {
+			continue
+		}
+		prev, ok := db.pageChecksum(pgno, prevPageN, nil)
+		if !ok {
+			return 0, false, nil
+		}
+		chksum ^= prev
+	}
+	return ltx.ChecksumFlag | chksum, true, nil
 }
 
 // ApplyLTXNoLock applies an LTX file to the database.
